@@ -543,6 +543,54 @@ impl<S: 'static> Timers<S> {
     }
 }
 
+// Verification hooks: dump the internal state as text, and set the
+// counters so that histories can start next to their wrap-around
+#[cfg(uazu_stakker_verif)]
+impl<S: 'static> Timers<S> {
+    pub(crate) fn verif_dump(&self) -> String {
+        use std::fmt::Write;
+        let mut out = String::new();
+        let _ = write!(out, "now={} seq={} free=", self.now.0, self.seq);
+        match self.var_free {
+            Some(v) => {
+                let _ = write!(out, "{}", v);
+            }
+            None => out.push('-'),
+        }
+        out.push_str(" queue=");
+        for tk in self.queue.keys() {
+            let _ = write!(out, "{}:{},", tk.time.0, tk.slot);
+        }
+        out.push_str(" var=");
+        for vs in &self.var {
+            match vs.item {
+                VarItem::Max(ref vt) => {
+                    let _ = write!(out, "{}:M:{}:{},", vs.gnn, vt.expiry.0, vt.curr.0);
+                }
+                VarItem::Min(ref vt) => {
+                    let _ = write!(out, "{}:N:{}:{},", vs.gnn, vt.expiry.0, vt.curr.0);
+                }
+                VarItem::Free(Some(n)) => {
+                    let _ = write!(out, "{}:F:{},", vs.gnn, n);
+                }
+                VarItem::Free(None) => {
+                    let _ = write!(out, "{}:F:-,", vs.gnn);
+                }
+            }
+        }
+        out
+    }
+
+    pub(crate) fn verif_poke(&mut self, seq: Option<u32>, gnn: Option<(u32, u32)>) {
+        if let Some(seq) = seq {
+            self.seq = seq;
+        }
+        if let Some((slot, gnn)) = gnn {
+            self.var[slot as usize].gnn = gnn;
+        }
+    }
+}
+
 // Take a 75% point and round up to fixed units to try and get a lot
 // of Min timers all expiring and updating at the same time, to be
 // more cache-friendly when there are lot of timers running.  Go
